@@ -401,6 +401,11 @@ where
     let mx = if small { 3 } else { 5 };
     let mut shape: Vec<usize> = (0..nd).map(|_| 1 + rng.below(mx)).collect();
     shape[axis] = 1 + rng.below(if small { 5 } else { 12 });
+    // now and then an array without elements whose reduced axis is NOT empty (no lanes at all)
+    if nd >= 2 && !small && rng.chance(0.03) {
+        let other = (axis + 1 + rng.below(nd - 1)) % nd;
+        shape[other] = 0;
+    }
     let total: usize = shape.iter().product();
     let pmiss = *rng.pick(&[0.0, 0.15, 0.4, 0.8, 1.0]);
     let mut data: Vec<T> = (0..total).map(|i| if rng.chance(pmiss) { T::missing(i) } else { T::val(i) }).collect();
